@@ -29,10 +29,13 @@ fn seed(x: u8) -> StrSeed {
 }
 
 /// layout: [flags][cycles] then ops: [kind][arg][arg] ... 0xFF = next thread, 0xFE = schedule follows
+/// flags: bit0 cancelable, bit1 fine-grained collector yields, bit2 extended operation table
 pub fn program_from_bytes(data: &[u8], allow_fill: bool) -> Program {
     let mut r = R { b: data, p: 0 };
     let flags = r.u8();
     let cancelable = flags & 1 == 1;
+    let fine = flags & 2 == 2;
+    let extended = flags & 4 == 4;
     let cycles = r.u8() % 7;
     let mut threads: Vec<Vec<Op>> = vec![vec![]];
     let mut schedule = vec![];
@@ -59,7 +62,12 @@ pub fn program_from_bytes(data: &[u8], allow_fill: bool) -> Program {
         if cur.len() >= 16 {
             continue;
         }
-        let op = match k % 22 {
+        let op = match if extended { k % 27 } else { k % 22 } {
+            22 => Op::Volley { n: 1 + a % 100 },
+            23 => Op::PopGuard { collect: a % 2 == 0, early: false, unwind: true },
+            24 => Op::PushChildSpans { span: sel, set: b as u16 * 257, last: true },
+            25 => Op::Churn { k: 1 + a % 3 },
+            26 => Op::CtxOfSpan { span: sel },
             0 | 1 => Op::Root { tc: 0, tr: 0, pc: 0, pr: 0, sampled: a % 8 != 0, np: b % 2, s: seed(b) },
             2 | 3 => Op::Child { parents: vec![sel], np: 0, s: seed(b) },
             4 => Op::Child { parents: vec![sel, sel.rotate_left(5)], np: 0, s: seed(b) },
@@ -88,7 +96,7 @@ pub fn program_from_bytes(data: &[u8], allow_fill: bool) -> Program {
         };
         cur.push(op);
     }
-    Program { cancelable, threads, cycles, schedule, fine: false }
+    Program { cancelable, threads, cycles, schedule, fine }
 }
 
 pub const KNOWN: &[&str] = &[
@@ -122,6 +130,7 @@ pub fn check_bytes(data: &[u8]) -> (Program, crate::world::Hist, Vec<crate::orac
         v.extend(oracle::c04(&ix));
         v.extend(oracle::c08(&ix));
         v.extend(oracle::c02(&ix, false));
+        v.extend(oracle::c07(&h));
         v.into_iter().filter(|x| !KNOWN.contains(&x.sig.as_str())).collect()
     };
     (prog, h, v)
